@@ -24,7 +24,10 @@ func c17(tier string) []*explore.Scenario {
 		out = append(out, c17BadPeer(role, bound))
 	}
 	for _, when := range []string{"before-old-fails", "after-old-fails"} {
-		out = append(out, c17Reattach(when, bound))
+		out = append(out, c17Reattach("C17", when, bound))
+	}
+	for _, dial := range []string{"fails", "succeeds", "pending"} {
+		out = append(out, c17AttachDuringDial("C17", dial, bound))
 	}
 	for _, traffic := range []int{0, 1, 2} {
 		out = append(out, c17DeadOnAttach(traffic, bound+3-traffic))
@@ -286,16 +289,22 @@ func c17BadPeer(role string, bound int) *explore.Scenario {
 }
 
 // c17Reattach: peer b re-attaches under its name; the old connection then fails.
-func c17Reattach(when string, bound int) *explore.Scenario {
-	fam := "C17/reattach"
+func c17Reattach(prop, when string, bound int) *explore.Scenario {
+	fam := prop + "/reattach"
 	return &explore.Scenario{
-		Name: "C17/reattach/" + when, Family: fam, Prop: "C17", Bound: bound,
+		Name: prop + "/reattach/" + when, Family: fam, Prop: prop, Bound: bound,
 		Run: func() {
 			t, peers := c17Env(4)
 			vsched.Settle()
 			vsched.Explore(true)
 			old := peers["b"]
 			nb := env.NewPipe(t.Tap, env.PipeOpts{Name: "b2", Cap: 4})
+			// b is the destination of the last envelope forwarded before it re-attaches
+			peers["a"].A.Inject(c17Msg(39, "a", "b"))
+			vsched.Quiesce()
+			if n := delivered(t, "b", 39); n != 1 {
+				vsched.Fail(fam+"|warm-up", "envelope 39 a->b before the re-attach was delivered %d times", n)
+			}
 			if when == "before-old-fails" {
 				t.Proxy.AddClient("b", nb.B)
 				vsched.Quiesce()
@@ -344,6 +353,69 @@ func c17Reattach(when string, bound int) *explore.Scenario {
 			}
 			if nd < 1 {
 				vsched.Fail(fam+"|no-disconnect-report", "the failed old connection of b was never reported")
+			}
+		},
+	}
+}
+
+// c17AttachDuringDial: an envelope for c makes the proxy dial c; while the
+// dial is pending c attaches itself under its name; then the dial fails /
+// succeeds / stays pending. Envelopes for c sent after the attach belong to
+// the attached connection (the newer one), consecutively and after other traffic.
+func c17AttachDuringDial(prop, dial string, bound int) *explore.Scenario {
+	fam := prop + "/attach-during-dial"
+	return &explore.Scenario{
+		Name: prop + "/attach-during-dial/dial-" + dial, Family: fam, Prop: prop, Bound: bound,
+		Run: func() {
+			t, peers := c17Env(4)
+			release := make(chan struct{})
+			t.SlowDial = map[string]chan struct{}{"c": release}
+			dialled := env.NewPipe(t.Tap, env.PipeOpts{Name: "cdial", Cap: 4})
+			if dial == "fails" {
+				t.DialErr["c"] = errors.New("no route to c")
+			} else {
+				t.Extra["c"] = dialled
+			}
+			vsched.Settle()
+			vsched.Explore(true)
+			peers["a"].A.Inject(c17Msg(80, "a", "c")) // starts the dial
+			vsched.Quiesce()
+			own := env.NewPipe(t.Tap, env.PipeOpts{Name: "c", Cap: 4})
+			t.Proxy.AddClient("c", own.B)
+			vsched.Quiesce()
+			if dial != "pending" {
+				close(release)
+				vsched.Quiesce()
+			}
+			peers["a"].A.Inject(c17Msg(81, "a", "c"))
+			vsched.Quiesce()
+			peers["a"].A.Inject(c17Msg(82, "a", "b"))
+			peers["a"].A.Inject(c17Msg(83, "a", "c"))
+			vsched.Quiesce()
+			count := func(wire string, id uint64) int {
+				n := 0
+				for _, e := range t.Tap.Events {
+					if e.Wire == wire && e.Rpc.GetId() == id {
+						n++
+					}
+				}
+				return n
+			}
+			vsched.Obs("dial %s: 80 own=%d dialled=%d | 81 own=%d | 83 own=%d | 82 b=%d | dialed=%v disconnects=%v", dial, count("c", 80), count("cdial", 80), count("c", 81), count("c", 83), delivered(t, "b", 82), t.Dialed, t.Disconnects)
+			for _, id := range []uint64{81, 83} {
+				if n := count("c", id); n != 1 {
+					vsched.Fail(fam+"|newer-connection-disturbed", "c attached itself while the proxy was dialling c (dial %s): envelope %d for c, sent after the attach, reached the attached connection %d times (the dialled one %d times)", dial, id, n, count("cdial", id))
+				}
+			}
+			if n := delivered(t, "b", 82); n != 1 {
+				vsched.Fail(fam+"|bystander-traffic", "envelope 82 a->b was delivered %d times", n)
+			}
+			if n := count("c", 80) + count("cdial", 80); n > 1 {
+				vsched.Fail(fam+"|duplicate", "envelope 80 was delivered %d times", n)
+			}
+			if dial == "pending" {
+				close(release)
+				vsched.Quiesce()
 			}
 		},
 	}
